@@ -22,6 +22,9 @@ FailedCodeData(r) ==
       THEN {} ELSE {"qubit_description_complete"})
 \cup (IF r.status # 200 \/ (\A j \in DOMAIN r.stab_complete : r.stab_complete[j])
       THEN {} ELSE {"stabilizer_description_complete"})
+\* colours and opacity are those the picture definition (gui-config.json)
+\* gives for the REQUESTED picture
+\cup (IF r.status # 200 \/ r.drawn_as_defined THEN {} ELSE {"drawn_as_the_requested_picture_defines"})
 \cup (IF r.status # 200 \/ r.H = r.lib_H THEN {} ELSE {"parity_check_matrix_identical_to_library"})
 \cup (IF r.status # 200 \/ (r.lx = r.lib_lx /\ r.lz = r.lib_lz) THEN {} ELSE {"logicals_identical_to_library"})
 
